@@ -643,7 +643,6 @@ func regenerate(c *Ctx) []regenResult {
 	return res
 }
 
-
 // predicateMatrix: every operand-type predicate of the form table (oprndtype.Match, i.e. operand.IsXXX)
 // against a fixed universe of operand values: every physical register view, virtual registers of every
 // kind and width (incl. high byte), integer constants of every width and signedness, float and string
